@@ -38,6 +38,15 @@ class TapeError(Exception):
     """Nondeterminism not owned / replay divergence: a harness error, never a property verdict."""
 
 
+class TapeBudget(BaseException):
+    """One execution consumed more than Tape.max_cells draws (e.g. a retry-until loop that never terminates under the
+    explorer's default answers): the execution is abandoned and counted as undecided - the explicit horizon every
+    harness needs.  A BaseException, so that neither the library nor a check's `except Exception` swallows it."""
+
+
+BUDGET_EVENTS = [0]
+
+
 def laplace_quantile(u, loc, scale):
     if u < 0.5:
         return loc + scale * math.log(2 * u) if u > 0 else -math.inf
@@ -51,6 +60,7 @@ class Tape:
         self.uniform_menu = tuple(uniform_menu)
         self.menu_policy = menu_policy
         self.max_menu = max_menu
+        self.max_cells = 2000
         self.trace = []            # every cell in order of occurrence (repeats of an address included)
         self.points = []           # choice points (new addresses only): dicts with menu size and choice
         self.memo = {}             # address -> (signature, answer)
@@ -71,6 +81,8 @@ class Tape:
     # ---- cells
     def choose(self, stream_obj, kind, n, info=None):
         """A discrete choice among n alternatives at the next address of stream_obj. Returns index."""
+        if len(self.trace) >= self.max_cells:
+            raise TapeBudget("more than %d random draws in one execution" % self.max_cells)
         addr = (stream_obj.stream, stream_obj.idx)
         stream_obj.idx += 1
         sig = (kind, n)
@@ -112,6 +124,8 @@ class Tape:
         return v
 
     def normal_cell(self, stream_obj):
+        if len(self.trace) >= self.max_cells:
+            raise TapeBudget("more than %d random draws in one execution" % self.max_cells)
         addr = (stream_obj.stream, stream_obj.idx)
         stream_obj.idx += 1
         if addr not in self.normal_ids:
@@ -511,7 +525,7 @@ def _uninstall():
 # ----------------------------------------------------------------------------------------------
 # explorers
 
-def explore(run, bound=None, max_exec=200000, branch=None):
+def explore(run, bound=None, max_exec=200000, branch=None, stop=None):
     """Stateless DFS over answer sequences (the brief's idiom).
 
     run(prefix) executes the system with `prefix` as answers (0 afterwards) and returns the list of
@@ -522,12 +536,23 @@ def explore(run, bound=None, max_exec=200000, branch=None):
     stack = [((), ())]
     nexec = 0
     capped = False
+    budget0 = BUDGET_EVENTS[0]
     while stack:
         prefix, menus = stack.pop()
+        if stop is not None and stop():
+            break
+        if BUDGET_EVENTS[0] - budget0 >= 20:      # the system keeps exhausting its draw budget: stop exploring this configuration
+            capped = True
+            break
         if nexec >= max_exec:
             capped = True
             break
-        points = run(prefix)
+        try:
+            points = run(prefix)
+        except TapeBudget:
+            BUDGET_EVENTS[0] += 1        # abandoned execution: undecided, never a verdict
+            nexec += 1
+            continue
         nexec += 1
         if len(points) < len(prefix):
             raise TapeError("replay divergence: prefix of %d answers but only %d choice points met" % (len(prefix), len(points)))
@@ -551,7 +576,11 @@ def explore(run, bound=None, max_exec=200000, branch=None):
 def affine_response(run, probes=True, tol=1e-9):
     """Basis mode.  run(normal_values) -> (output ndarray, n_normal_cells, unmodelled).
     Returns dict(base, R [N x size], n, affine_ok, executions, detail)."""
-    base, n, unm = run({})
+    try:
+        base, n, unm = run({})
+    except TapeBudget:
+        BUDGET_EVENTS[0] += 1
+        return {"base": np.zeros(0), "n": 0, "unmodelled": 1, "affine_ok": False, "executions": 1, "detail": "draw budget exceeded", "R": np.zeros((0, 0))}
     base = np.asarray(base, dtype=float)
     res = {"base": base, "n": n, "unmodelled": unm, "affine_ok": True, "executions": 1, "detail": ""}
     R = np.zeros((n, base.size))
